@@ -8,7 +8,7 @@ import typing as t
 
 
 def sid_to_bytes(sid: str) -> bytes:
-    sid_pattern = re.compile(r"^S-(\d)-(\d+)(?:-\d+){1,15}$")
+    sid_pattern = re.compile(r"^S-([0-9])-([0-9]+)(?:-[0-9]+){1,15}\Z")
     sid_match = sid_pattern.match(sid)
     if not sid_match:
         raise ValueError(f"Input string '{sid}' is not a valid SID string")
